@@ -328,22 +328,31 @@ def compress_inputs(rng, tier, codec):
     for n in range(1, 21):
         ins.append((f"len{n}", rnd(rng, n)))
         ins.append((f"same{n}", bytes([rng.getrandbits(8)]) * n))
-    for n in (59, 60, 61, 62, 63, 64, 65, 66, 67, 68, 69, 70, 127, 128, 255, 256, 257, 300, 1000):
+    for n in (59, 60, 61, 62, 63, 64, 65, 66, 67, 68, 69, 70, 127, 128, 255, 256, 257, 269, 270, 271, 300, 524, 525, 526, 1000):
         ins.append((f"same{n}", bytes([rng.getrandbits(8)]) * n))
         ins.append((f"two{n}", bytes(rng.choice(b"ab") for _ in range(n))))
         ins.append((f"rand{n}", rnd(rng, n)))
     # literal runs of exactly L incompressible bytes between matches; matches of exactly M bytes
     reps = 3 if tier == "quick" else 8
     for _ in range(reps):
-        for L in (0, 1, 14, 15, 16, 59, 60, 61, 62, 255, 256, 257, 269, 270, 271):
+        for L in (0, 1, 14, 15, 16, 59, 60, 61, 62, 255, 256, 257, 269, 270, 271, 524, 525, 526):
             for M in (4, 5, 11, 12, 18, 19, 20, 63, 64, 65, 66, 67, 68, 69, 127, 128, 131, 132, 133, 273, 274, 275):
                 if rng.random() > (0.25 if tier == "quick" else 0.6):
                     continue
-                pat = rnd(rng, max(M, 4))
-                sep1 = rnd(rng, 8)
-                x = pat[:M] + b"\x01" + sep1 + rnd(rng, L)[:L]
-                # make the literal run exactly L by ending it where the pattern restarts
-                x = pat[:M] + bytes([pat[M - 1] ^ 0x55]) + rnd(rng, L) + pat[:M] + bytes([pat[M - 1] ^ 0xAA]) + rnd(rng, rng.choice([0, 11, 12, 13, 15, 16, 20]))
+                pat = rnd(rng, max(M, 4))[:M]
+                tail = rnd(rng, rng.choice([0, 11, 12, 13, 15, 16, 20, 30]))
+                if L == 0 or rng.random() < 0.25:
+                    # one match of exactly M bytes after a first literal run of M + 1 + L bytes
+                    x = pat + bytes([pat[M - 1] ^ 0x55]) + rnd(rng, L) + pat + bytes([pat[M - 1] ^ 0xAA]) + tail
+                else:
+                    # pattern, gap, pattern (match), then a literal run of EXACTLY L bytes (d2 + L-1 noise bytes), pattern
+                    # (match of exactly M bytes): the bytes after the three pattern copies differ, so no match runs on
+                    d = rng.sample([b for b in range(256) if b != pat[0]], 3)
+                    noise = bytearray(rnd(rng, L - 1))
+                    if noise and noise[-1] == pat[M - 1]:
+                        noise[-1] ^= 0x10
+                    x = (pat + bytes([d[0]]) + rnd(rng, 7) + pat + bytes([d[1]]) + bytes(noise) + pat + bytes([d[2]])
+                         + (tail if len(tail) >= 13 else tail + rnd(rng, 16)))
                 ins.append((f"lit{L}_match{M}", x))
     # matches ending exactly k bytes before the end (LZ4 last-literals margin, Snappy 15-byte limit)
     for k in range(0, 20):
@@ -413,12 +422,40 @@ def san_summary(err):
     return " | ".join(keep[:8]) if keep else (err or "")[-600:]
 
 
-def run_all(vlib, exe, lines, timeout=900, max_deaths=12):
+def run_all(vlib, exe, lines, timeout=900, max_deaths=12, case_timeout=30):
     """run_sharded, but when a shard dies on a case the remaining cases of that shard are run again
     (so one crashing input does not hide the results of the others).  Returns (outs, deaths) where
     deaths = [(case line, returncode, report summary)] and the dead case's output is 'FAULT died'."""
     outs, probs = vlib.run_sharded(exe, lines, timeout=timeout)
     deaths = []
+    # a shard that ran out of time: run its cases one by one to name the case that does not come back
+    slow = [pr for pr in probs if pr[1] == -9]
+    probs = [pr for pr in probs if pr[1] != -9]
+    import subprocess as _sp
+    for pr in slow:
+        case = pr[3]
+        try:
+            k = next(i for i, (l, o) in enumerate(zip(lines, outs)) if o == "FAULT died" and l == case)
+        except StopIteration:
+            deaths.append((case, -9, "shard timed out")); continue
+        j = k
+        while j < len(lines) and outs[j] == "FAULT died":
+            j += 1
+        def one(i):
+            try:
+                o, rc, err = vlib.run_lines(exe, [lines[i]], timeout=case_timeout)
+                return i, o, rc, err
+            except _sp.TimeoutExpired:
+                return i, None, -9, ""
+        from concurrent.futures import ThreadPoolExecutor as _TP
+        with _TP(vlib.NCPU) as ex:
+            for i, o, rc, err in ex.map(one, range(k, j)):
+                if o is None:
+                    deaths.append((lines[i], -9, f"no result within {case_timeout} s: the call does not terminate or its time is not proportional to the input size"))
+                elif rc != 0 or not o:
+                    deaths.append((lines[i], rc, san_summary(err)))
+                else:
+                    outs[i] = o[0]
     pending = list(probs)
     budget = max_deaths
     while pending and budget > 0:
@@ -596,6 +633,10 @@ def big_lines(tier, codecs=("snappy", "lz4")):
         # more than 16 MiB without any match (period = n: pure noise): the five-byte literal header of snappy_emit_literal
         lines.append(f"big snappy r {(17 << 20) + 3} {(17 << 20) + 3}")
     for codec in codecs:
+        # incompressible multi-megabyte inputs at the bound (the slack of the bound formulas grows with n)
+        for n in ((3 << 20) + 1, (5 << 20) + 7):
+            if not (codec == "zstd" and n > (4 << 20)):
+                lines.append(f"big {codec} r {n} {n}")
         for n in sizes:
             kinds = [("z", 1), ("p", 40)] if n < (1 << 27) else [("z", 1)]
             if codec == "snappy" and n < (1 << 23):
@@ -664,3 +705,25 @@ def slen_lines(rng, tier):
         if r not in seen:
             seen.add(r); out.append("slen " + (r.hex() if r else "-"))
     return out
+
+
+def sfar_lines(tier):
+    """copy-4 back-references of 16 MiB and more (the fourth offset byte is non-zero): built in the driver"""
+    n = (1 << 24) + 1000
+    lines = [f"sfar {n} {1 << 24} 64", f"sfar {n} {(1 << 24) + 1} 1", f"sfar {n} {n} 4", f"sfar {n} {(1 << 24) - 1} 7"]
+    if tier == "thorough":
+        m = (1 << 25) + 77
+        lines += [f"sfar {m} {1 << 25} 64", f"sfar {m} {m} 33", f"sfar {m} {(3 << 23) + 5} 2", f"sfar {(1 << 26) + 9} {1 << 26} 64"]
+    return lines
+
+
+def judge_sfar(line, out):
+    _, n, off, ln = line.split()
+    if not out.startswith("OK "):
+        return [f"carquet_snappy_decompress: crash / sanitizer report on a valid block with a copy-4 of offset {off} after {n} literal bytes: {out[:160]}"]
+    d = dict(x.split("=") for x in out.split()[1:])
+    if d.get("lib") != "1":
+        return []          # libsnappy disagrees with the driver's own encoder: not an implementation verdict
+    if d.get("rt") != "1":
+        return [f"carquet_snappy_decompress does not return the bytes a valid stream denotes: {n} literal bytes then copy-4 offset {off} length {ln} (status {d.get('status')}; libsnappy decodes it)"]
+    return []
